@@ -22,7 +22,8 @@ COMPONENTS = {
              "pydsol.core.model", "pydsol.core.experiment", "pydsol.core.units.Duration"],
     "stub": ["threading.Event/Lock (cooperative)", "time.time/sleep (virtual clock)",
              "stdout/stderr/logging (sunk)"]}
-ASSUMPTIONS = [
+ASSUMPTIONS = ["sizes are swarm-varied: about 1 % of the programs are large (120 or 300 events)",
+               
     "RefDEVS (vf/models/refdevs.py) is the intended semantics: next = min by (time, -priority, scheduling order)",
     "times on a dyadic grid so float arithmetic is exact; priorities 1..10",
     "the exception class of a refusal is not judged",
@@ -40,7 +41,8 @@ def init_worker():
 def generate(seed, tier, idx=0):
     rng = common.rng_for(seed, "case")
     prog = program.gen_program(
-        rng, p_cancel=rng.choice([0.0, 0.1, 0.2, 0.35]),
+        rng, n_events=rng.choice([120, 300]) if rng.random() < 0.01 else None,
+        p_cancel=rng.choice([0.0, 0.1, 0.2, 0.35]),
         p_bad=rng.choice([0.0, 0.0, 0.1, 0.25]),
         p_abs=rng.choice([0.1, 0.2, 0.4]))
     case = {"program": prog, "strategy": 3,
